@@ -37,6 +37,11 @@ Vocab ==
     typeImportExpr |-> Item("ts", "decl", "static", "importType", FALSE, "none", FALSE, "-"),
     typeofImport |-> Item("ts", "decl", "static", "importType", FALSE, "none", FALSE, "-"),
     declMod |-> Item("ts", "decl", "static", "maybeTsModuleAugmentation", FALSE, "none", FALSE, "-"),
+    impDefer |-> Item("any", "decl", "static", "importDefer", FALSE, "none", FALSE, "-"),
+    impSource |-> Item("any", "decl", "static", "importSource", FALSE, "none", FALSE, "-"),
+    dynDefer |-> Item("any", "expr", "dynamic", "importDefer", FALSE, "none", FALSE, "string"),
+    dynSource |-> Item("any", "expr", "dynamic", "importSource", FALSE, "none", FALSE, "string"),
+    reqTpl |-> Item("any", "expr", "dynamic", "require", FALSE, "none", FALSE, "string"),
     dyn |-> Item("any", "expr", "dynamic", "import", FALSE, "none", FALSE, "string"),
     dynTpl |-> Item("any", "expr", "dynamic", "import", FALSE, "none", FALSE, "string"),
     dynTplParts |-> Item("any", "expr", "dynamic", "import", FALSE, "none", FALSE, "template"),
